@@ -4,6 +4,7 @@ CONSTANTS
   MaxStr = 3
   MaxTokens = 5
   MaxNum = 7
+  DefectivePairs = FALSE
   BigLeaves = TRUE
   Modes = {"value", "string", "text", "number", "escape"}
 INVARIANTS T_RoundTrip T_Total T_FixedPoint T_Stream T_Number T_Escape
